@@ -46,17 +46,20 @@ Definition dict_Z (d : dict) (key : bytes) : result Z :=
 Definition dict_S (d : dict) (key : bytes) : result bytes :=
   match dict_get d key with Some (PS s) => Ok s | _ => Err EKey end.
 
-Definition link_bitmap (cast : list (option member)) (m : member) (data : bytes) : result member :=
+(* a BITD link is only registered while the cast is read: the number of the palette member it designates (0: none) and
+   the image data; the bitmaps are decoded once every member is known (bitmap_pass) *)
+Definition bitmap_ref (m : member) : Z :=
+  match m_palette m with
+  | Some _ => 0                                        (* str(bytes) is not a number *)
+  | None =>
+    match dict_get (m_cast m) (B "palette") with
+    | Some (PS s) => match parse_int_str s with Some z => z | None => 0 end
+    | _ => 0
+    end
+  end.
+
+Definition decode_bitmap (cast : list (option member)) (m : member) (pal_id : Z) (data : bytes) : result member :=
   let cd := m_cast m in
-  let! pal_id :=
-    match m_palette m with
-    | Some _ => Ok 0                                        (* str(bytes) is not a number *)
-    | None =>
-      match dict_get cd (B "palette") with
-      | Some (PS s) => Ok (match parse_int_str s with Some z => z | None => 0 end)
-      | _ => Ok 0
-      end
-    end in
   let! clut :=
     if pal_id >? 0 then
       match index cast (pal_id - 1) with
@@ -75,7 +78,7 @@ Definition link_bitmap (cast : list (option member)) (m : member) (data : bytes)
   Ok {| m_cast := cd; m_text := m_text m; m_sound := m_sound m; m_palette := m_palette m; m_bitmap := Some bmp |}.
 
 Definition link_one (chunks : list chunk) (off : Z) (rs : list mmap_res) (fontmap : list font)
-           (cast : list (option member)) (m : member) (rf : bytes * Z) : result member :=
+           (m : member) (rf : bytes * Z) : result (member * list (Z * bytes)) :=
   let '(rfid, rfidx) := rf in
   let! res := of_option EIndex (index rs rfidx) in
   if negb (bytes_eqb rfid (r_id res)) then Err EValue else
@@ -83,39 +86,61 @@ Definition link_one (chunks : list chunk) (off : Z) (rs : list mmap_res) (fontma
   let id := r_id res in
   if bytes_eqb id (fourcc "STXT") then
     let! t := parse_stxt_data (snd ch) fontmap in
-    Ok {| m_cast := m_cast m; m_text := Some t; m_sound := m_sound m; m_palette := m_palette m; m_bitmap := m_bitmap m |}
+    Ok ({| m_cast := m_cast m; m_text := Some t; m_sound := m_sound m; m_palette := m_palette m; m_bitmap := m_bitmap m |}, [])
   else if bytes_eqb id (fourcc "snd ") then
     let! s := snd_to_sampled (snd ch) in
-    Ok {| m_cast := m_cast m; m_text := m_text m; m_sound := Some s; m_palette := m_palette m; m_bitmap := m_bitmap m |}
+    Ok ({| m_cast := m_cast m; m_text := m_text m; m_sound := Some s; m_palette := m_palette m; m_bitmap := m_bitmap m |}, [])
   else if bytes_eqb id (fourcc "CLUT") then
     let! p := clut2palette (snd ch) in
-    Ok {| m_cast := m_cast m; m_text := m_text m; m_sound := m_sound m; m_palette := Some p; m_bitmap := m_bitmap m |}
-  else if bytes_eqb id (fourcc "THUM") then Ok m
-  else if bytes_eqb id (fourcc "BITD") then link_bitmap cast m (snd ch)
+    Ok ({| m_cast := m_cast m; m_text := m_text m; m_sound := m_sound m; m_palette := Some p; m_bitmap := m_bitmap m |}, [])
+  else if bytes_eqb id (fourcc "THUM") then Ok (m, [])
+  else if bytes_eqb id (fourcc "BITD") then Ok (m, [(bitmap_ref m, snd ch)])
   else Err EValue.
 
-Fixpoint link_all chunks off rs fontmap cast (m : member) (refs : list (bytes * Z)) : result member :=
+Fixpoint link_all chunks off rs fontmap (m : member) (refs : list (bytes * Z)) : result (member * list (Z * bytes)) :=
   match refs with
-  | [] => Ok m
-  | rf :: rest => let! m' := link_one chunks off rs fontmap cast m rf in link_all chunks off rs fontmap cast m' rest
+  | [] => Ok (m, [])
+  | rf :: rest =>
+    let! (m', ps) := link_one chunks off rs fontmap m rf in
+    let! (m'', ps') := link_all chunks off rs fontmap m' rest in Ok (m'', ps ++ ps')
   end.
 
 Definition key_refs (key : keymap) (owner : Z) : list (bytes * Z) :=
   match assoc owner key with Some l => l | None => [] end.
 
+(* a bitmap waiting to be decoded: cast slot, palette member number, image data *)
+Definition pend := (nat * Z * bytes)%type.
+
 (* for cas_index in cas_elements: ... cast.append(...) *)
-Fixpoint cast_loop chunks off rs fontmap (key : keymap) (cas : list Z) (cast : list (option member))
-  : result (list (option member)) :=
+Fixpoint cast_loop chunks off rs fontmap (key : keymap) (cas : list Z) (cast : list (option member)) (pd : list pend)
+  : result (list (option member) * list pend) :=
   match cas with
-  | [] => Ok cast
+  | [] => Ok (cast, pd)
   | ci :: rest =>
-    if ci =? 0 then cast_loop chunks off rs fontmap key rest (cast ++ [None]) else
+    if ci =? 0 then cast_loop chunks off rs fontmap key rest (cast ++ [None]) pd else
     let! res := of_option EIndex (index rs ci) in
     let! ch := chunk_of chunks off res in
     let! cd := parse_cast_file_data (snd ch) in
     let m0 := {| m_cast := cd; m_text := None; m_sound := None; m_palette := None; m_bitmap := None |} in
-    let! m := link_all chunks off rs fontmap cast m0 (key_refs key ci) in
-    cast_loop chunks off rs fontmap key rest (cast ++ [Some m])
+    let! (m, ps) := link_all chunks off rs fontmap m0 (key_refs key ci) in
+    cast_loop chunks off rs fontmap key rest (cast ++ [Some m]) (pd ++ map (fun p => (List.length cast, fst p, snd p)) ps)
+  end.
+
+(* for castData, paletteId, bitd_data in pending_bitmaps: ... castData['bitmap'] = bitd2bmp(...) *)
+Fixpoint set_slot (cast : list (option member)) (k : nat) (v : option member) : list (option member) :=
+  match cast, k with
+  | [], _ => []
+  | _ :: r, O => v :: r
+  | x :: r, S k' => x :: set_slot r k' v
+  end.
+Fixpoint bitmap_pass (cast : list (option member)) (pd : list pend) : result (list (option member)) :=
+  match pd with
+  | [] => Ok cast
+  | (slot, pal_id, data) :: rest =>
+    match nth_error cast slot with
+    | Some (Some m) => let! m' := decode_bitmap cast m pal_id data in bitmap_pass (set_slot cast slot (Some m')) rest
+    | _ => Err EOther
+    end
   end.
 
 (* scripts: dict script number -> (lingo, js), in insertion order *)
@@ -219,7 +244,8 @@ Definition assemble (off : Z) (p : parts) : result dirfile :=
   let! fontmap := if has rs (fourcc "Fmap") then
                     let! c := located_chunk chunks off rs (fourcc "Fmap") in parse_fmap_data (snd c)
                   else Ok [] in
-  let! cast := cast_loop chunks off rs fontmap (p_key p) cas [] in
+  let! (cast0, pd) := cast_loop chunks off rs fontmap (p_key p) cas [] [] in
+  let! cast := bitmap_pass cast0 pd in
   Ok {| d_info := info; d_cast := cast; d_scripts := scr; d_markers := markers; d_score := score; d_fontmap := fontmap |}.
 
 Definition parse_dir_file_data (bo : byteorder) (off : Z) (d : bytes) : result dirfile :=
